@@ -43,8 +43,8 @@ struct Obs {
     int exc = 0;       // tag of the exception seen by the rejection continuation
 };
 
-const char* kShapes[] = { "root", "derived-value", "derived-void", "derived-resolved-promise", "derived-pending-promise", "derived-chain2", "void-root", "void-derived" };
-constexpr int kNumShapes = 8;
+const char* kShapes[] = { "root", "derived-value", "derived-void", "derived-resolved-promise", "derived-pending-promise", "derived-chain2", "void-root", "void-derived", "void-derived-pending-promise" };
+constexpr int kNumShapes = 9;
 
 Json gen(sim::Rng& rng, int tier)
 {
@@ -52,6 +52,7 @@ Json gen(sim::Rng& rng, int tier)
     Json p = Json::object();
     p["shape"] = static_cast<int>(rng.below(kNumShapes));
     p["reject"] = rng.chance(0.35);
+    p["inner_reject"] = rng.chance(0.4);   // shapes with a pending inner promise: the settler rejects it instead of fulfilling it
     p["attachers"] = static_cast<int>(rng.range(1, 2));
     p["b_builds_chain"] = rng.chance(0.3);   // the attaching thread creates the derived promise itself
     p["settle_delay_us"] = rng.chance(0.6) ? 0 : static_cast<int>(rng.below(20));
@@ -65,6 +66,8 @@ void run(const Json& plan)
     int shape = static_cast<int>(plan.num("shape", 0));
     if (shape < 0 || shape >= kNumShapes) shape = 0;
     const bool reject = plan.flag("reject");
+    const bool has_inner = shape == 4 || shape == 8;
+    const bool inner_reject = has_inner && !reject && plan.flag("inner_reject");
     const int attachers = std::max(1, std::min(3, static_cast<int>(plan.num("attachers", 1))));
     const bool b_builds = plan.flag("b_builds_chain");
     const i64 sdelay = plan.num("settle_delay_us", 0) * 1000, adelay = plan.num("attach_delay_us", 0) * 1000;
@@ -73,6 +76,7 @@ void run(const Json& plan)
     sim::Recorder& r = sim::rec();
     r.probe(std::string("shape-") + kShapes[shape]);
     if (reject) r.probe("settle-reject");
+    if (inner_reject) r.probe("inner-promise-rejected");
     if (b_builds) r.probe("attacher-builds-chain");
 
     std::vector<Obs> obs(static_cast<size_t>(attachers));
@@ -98,7 +102,7 @@ void run(const Json& plan)
     // expected value delivered to the final continuation
     int expect_val = V;
     switch (shape) {
-    case 1: case 3: case 4: expect_val = V + 1; break;
+    case 1: case 3: case 4: case 8: expect_val = V + 1; break;
     case 5: expect_val = V + 2; break;
     default: break;
     }
@@ -153,6 +157,14 @@ void run(const Json& plan)
             attach_void(D, o);
             break;
         }
+        case 8: {
+            auto D = PV.then([&]() {
+                { sim::IgnoreScope ig; stage_calls++; }
+                return make_inner();
+            }, Async::Throw);
+            attach_int(D, o);
+            break;
+        }
         }
     };
 
@@ -171,6 +183,11 @@ void run(const Json& plan)
             break;
         case 5: DI.reset(new Async::Promise<int>(PI.then([&](int v) { { sim::IgnoreScope ig; stage_calls++; } return v + 1; }, Async::Throw).then([&](int v) { return v + 1; }, Async::Throw))); break;
         case 7: DV.reset(new Async::Promise<void>(PV.then([&]() { sim::IgnoreScope ig; stage_calls++; }, Async::Throw))); break;
+        case 8: DI.reset(new Async::Promise<int>(PV.then([&]() {
+                    { sim::IgnoreScope ig; stage_calls++; }
+                    return make_inner();
+                }, Async::Throw)));
+            break;
         default: break;
         }
     }
@@ -185,7 +202,7 @@ void run(const Json& plan)
             if (reject) defI.reject(TestExc(E));
             else defI.resolve(V);
         }
-        if (shape == 4 && !reject) {
+        if (has_inner && !reject) {
             // an inner promise exists once a first-stage continuation has run (inside resolve or inside then);
             // settle each of them as it appears
             size_t want = static_cast<size_t>(b_builds ? attachers : 1), done = 0;
@@ -197,7 +214,8 @@ void run(const Json& plan)
                     std::lock_guard<std::mutex> g(innerMtx);
                     d = innerDefs[done].get();
                 }
-                d->resolve(V + 1);
+                if (inner_reject) d->reject(TestExc(E + 1));
+                else d->resolve(V + 1);
                 done++;
             }
         }
@@ -233,9 +251,10 @@ void run(const Json& plan)
             if (!unsettled_by_design) r.violation(std::string("C12.once:continuation-never-ran:") + tgt, who + " never ran although the promise was settled");
         } else if (o.fulfilled + o.rejected > 1) {
             r.violation(std::string("C12.once:continuation-ran-twice:") + tgt, who + " ran " + std::to_string(o.fulfilled) + " fulfilment and " + std::to_string(o.rejected) + " rejection times");
-        } else if (reject) {
+        } else if (reject || inner_reject) {
+            const int want_tag = reject ? E : E + 1;
             if (o.fulfilled) r.violation(std::string("C12.outcome:fulfilled-on-rejection:") + tgt, who + " saw fulfilment of a rejected promise");
-            else if (o.exc != E) r.violation(std::string("C12.outcome:wrong-exception:") + tgt, who + " saw exception tag " + std::to_string(o.exc) + " instead of " + std::to_string(E));
+            else if (o.exc != want_tag) r.violation(std::string("C12.outcome:wrong-exception:") + tgt, who + " saw exception tag " + std::to_string(o.exc) + " instead of " + std::to_string(want_tag));
         } else {
             if (o.rejected) r.violation(std::string("C12.outcome:rejected-on-fulfilment:") + tgt, who + " saw a rejection (tag " + std::to_string(o.exc) + ") of a fulfilled promise");
             else if (!final_void && o.value != expect_val) r.violation(std::string("C12.outcome:wrong-value:") + tgt, who + " saw value " + std::to_string(o.value) + " instead of " + std::to_string(expect_val));
